@@ -92,20 +92,21 @@ type GuardedBy struct {
 }
 
 type Specs struct {
-	Contracts   map[string]*Contract
-	Preds       map[string]*Pred
-	UFuncs      map[string]*UFunc
-	Ghosts      map[string]*GhostVar
-	Guarded     []*GuardedBy
-	Consts      map[string]ast.Expr
-	Axioms      []*Clause
-	Files       []string
-	Lemmas      []*Lemma
-	Tokens      map[string]int  // scan of assume/trusted tokens
-	TypeLits    map[string]bool // concrete type names used in typeis()/unbox()
-	Refinements []*Refinement
-	Immutable   map[string]bool   // package-level variables treated as non-nil constants (sentinel errors)
-	AssignSets  map[string]string // named lists of assigns targets
+	Contracts      map[string]*Contract
+	Preds          map[string]*Pred
+	UFuncs         map[string]*UFunc
+	Ghosts         map[string]*GhostVar
+	Guarded        []*GuardedBy
+	Consts         map[string]ast.Expr
+	Axioms         []*Clause
+	Files          []string
+	Lemmas         []*Lemma
+	Tokens         map[string]int  // scan of assume/trusted tokens
+	TypeLits       map[string]bool // concrete type names used in typeis()/unbox()
+	Refinements    []*Refinement
+	Immutable      map[string]bool   // package-level variables treated as non-nil constants (sentinel errors)
+	AssignSets     map[string]string // named lists of assigns targets
+	AssignSetParam map[string]string // formal parameter of a parameterised assignset
 }
 
 type Refinement struct {
@@ -134,7 +135,7 @@ type lemmaVar struct{ Name, Type string }
 
 func newSpecs() *Specs {
 	return &Specs{Contracts: map[string]*Contract{}, Preds: map[string]*Pred{}, UFuncs: map[string]*UFunc{},
-		Ghosts: map[string]*GhostVar{}, Consts: map[string]ast.Expr{}, Tokens: map[string]int{}, TypeLits: map[string]bool{}, Immutable: map[string]bool{}, AssignSets: map[string]string{}}
+		Ghosts: map[string]*GhostVar{}, Consts: map[string]ast.Expr{}, Tokens: map[string]int{}, TypeLits: map[string]bool{}, Immutable: map[string]bool{}, AssignSets: map[string]string{}, AssignSetParam: map[string]string{}}
 }
 
 var kwRe = regexp.MustCompile(`^(pkg|func|props|alloc|refine|immutable|assignset|requires|ensures|assigns|loop|assert|inline|trusted|pure|nonnil|let|pred|view|ghost|guarded_by|ufunc|const|overflow|lemma|var|hyp|concl|axiom|end|external)\b`)
@@ -511,9 +512,17 @@ func (sp *Specs) loadSpecFile(path string, external bool) error {
 					continue
 				}
 				if strings.HasPrefix(a, "@") {
-					set, ok := sp.AssignSets[a[1:]]
+					// @name or @name(arg): named (optionally one-parameter) list of targets
+					name, arg := a[1:], ""
+					if i := strings.Index(name, "("); i > 0 && strings.HasSuffix(name, ")") {
+						name, arg = name[:i], name[i+1:len(name)-1]
+					}
+					set, ok := sp.AssignSets[name]
 					if !ok {
 						return fmt.Errorf("%s: unknown assignset %s", where, a)
+					}
+					if p := sp.AssignSetParam[name]; p != "" {
+						set = regexp.MustCompile(`\b`+regexp.QuoteMeta(p)+`\b`).ReplaceAllString(set, arg)
 					}
 					items = append(items, splitTop(set, ",")...)
 					continue
@@ -649,7 +658,12 @@ func (sp *Specs) loadSpecFile(path string, external bool) error {
 			if i < 0 {
 				return fmt.Errorf("%s: bad assignset", where)
 			}
-			sp.AssignSets[strings.TrimSpace(rest[:i])] = strings.TrimSpace(rest[i+1:])
+			name := strings.TrimSpace(rest[:i])
+			if j := strings.Index(name, "("); j > 0 && strings.HasSuffix(name, ")") {
+				sp.AssignSetParam[name[:j]] = strings.TrimSpace(name[j+1 : len(name)-1])
+				name = name[:j]
+			}
+			sp.AssignSets[name] = strings.TrimSpace(rest[i+1:])
 		case "immutable":
 			for _, n := range strings.Fields(rest) {
 				sp.Immutable[n] = true
